@@ -13,24 +13,24 @@ import (
 // Children() probe
 
 type childRow struct {
-	Type    string `json:"type"`
-	Path    string `json:"path"`
-	Leaf    string `json:"leaf"`
-	Planted bool   `json:"planted"`
-	Emitted bool   `json:"emitted"`        // sentinel came back when planted alone
-	EmittedAll bool `json:"emitted_all"`   // sentinel came back when all slots were planted at once
-	Why     string `json:"why,omitempty"`
+	Type       string `json:"type"`
+	Path       string `json:"path"`
+	Leaf       string `json:"leaf"`
+	Planted    bool   `json:"planted"`
+	Emitted    bool   `json:"emitted"`     // sentinel came back when planted alone
+	EmittedAll bool   `json:"emitted_all"` // sentinel came back when all slots were planted at once
+	Why        string `json:"why,omitempty"`
 }
 
 type childType struct {
-	Type           string `json:"type"`
-	ValueReceiver  bool   `json:"value_receiver"`   // T (not only *T) implements Node
-	ZeroPanics     string `json:"zero_panics,omitempty"`
-	ZeroTypedNil   int    `json:"zero_typed_nil"`   // typed-nil pointers emitted by Children() of the zero value
-	ZeroNilIface   int    `json:"zero_nil_iface"`   // nil interfaces emitted by the zero value
-	NilRecvPanics  bool   `json:"nil_recv_panics"`  // Children() on a nil *T panics
-	Extra          int    `json:"extra"`            // children returned (all planted) that match no planted sentinel and are not nil
-	Paths          int    `json:"paths"`
+	Type          string `json:"type"`
+	ValueReceiver bool   `json:"value_receiver"` // T (not only *T) implements Node
+	ZeroPanics    string `json:"zero_panics,omitempty"`
+	ZeroTypedNil  int    `json:"zero_typed_nil"`  // typed-nil pointers emitted by Children() of the zero value
+	ZeroNilIface  int    `json:"zero_nil_iface"`  // nil interfaces emitted by the zero value
+	NilRecvPanics bool   `json:"nil_recv_panics"` // Children() on a nil *T panics
+	Extra         int    `json:"extra"`           // children returned (all planted) that match no planted sentinel and are not nil
+	Paths         int    `json:"paths"`
 }
 
 type childTables struct {
@@ -131,14 +131,45 @@ func probeChildren() childTables {
 // pool probe
 
 type poolRow struct {
-	Pool   string `json:"pool"`
-	Via    string `json:"via"` // Put | PutExpression | ReleaseAST
-	Field  string `json:"field"`
-	Status string `json:"status"` // zero | len0_clean | len0_dirty | retained
-	GetSame bool  `json:"get_same"`
+	Pool    string `json:"pool"`
+	Via     string `json:"via"` // Put | PutExpression | ReleaseAST
+	Field   string `json:"field"`
+	Status  string `json:"status"` // zero | len0_clean | len0_dirty | retained
+	GetSame bool   `json:"get_same"`
 }
 
 // fill sets every exported field of the struct v (addressable) to a non-zero value.
+// fillOnly fills exactly one exported field (by name) of a struct and leaves the others zero.
+func fillOnly(v reflect.Value, name string) {
+	t := v.Type()
+	for i := 0; i < t.NumField(); i++ {
+		if t.Field(i).IsExported() && t.Field(i).Name == name {
+			fillSlot(v.Field(i), 0)
+		}
+	}
+}
+
+// worse merges the status of a field after a release of a fully filled object with its status after a release of
+// an object in which only that field was set: a release path that depends on what else the object holds (a fast
+// path for "empty" objects) must still clean every field
+func worse(full, single string) string {
+	clean := func(s string) bool { return s == "zero" || s == "len0_clean" }
+	if !clean(full) || clean(single) {
+		return full
+	}
+	return single + " (when only this field is set)"
+}
+
+func exportedFields(t reflect.Type) []string {
+	var out []string
+	for i := 0; i < t.NumField(); i++ {
+		if t.Field(i).IsExported() {
+			out = append(out, t.Field(i).Name)
+		}
+	}
+	return out
+}
+
 func fill(v reflect.Value, depth int) {
 	t := v.Type()
 	for i := 0; i < t.NumField(); i++ {
@@ -285,6 +316,17 @@ func probePools(putExprCases []string) []poolRow {
 		if same {
 			st = statusOf(ov.Elem())
 		}
+		for _, fn := range exportedFields(ov.Elem().Type()) {
+			drainPools()
+			o2 := pr.Get()
+			v2 := reflect.ValueOf(o2)
+			fillOnly(v2.Elem(), fn)
+			pr.Put(o2)
+			_ = pr.Get() // cleaning may happen on the way out of the pool
+			if s2, ok := statusOf(v2.Elem())[fn]; ok {
+				st[fn] = worse(st[fn], s2)
+			}
+		}
 		emit(pr.Name, "Put", st, same)
 	}
 	// PutExpression on every case type of its switch
@@ -329,6 +371,17 @@ func probePools(putExprCases []string) []poolRow {
 		same := got == a
 		if same {
 			st = statusOf(av)
+		}
+		for _, fn := range exportedFields(av.Type()) {
+			drainPools()
+			a2 := ast.NewAST()
+			v2 := reflect.ValueOf(a2).Elem()
+			fillOnly(v2, fn)
+			ast.ReleaseAST(a2)
+			_ = ast.NewAST()
+			if s2, ok := statusOf(v2)[fn]; ok {
+				st[fn] = worse(st[fn], s2)
+			}
 		}
 		emit("AST", "ReleaseAST", st, same)
 	}
